@@ -96,4 +96,15 @@ theorem C09_counterexample_stale_retries :
     outcome (runEvents {} pickFirst (nextRun {} pickFirst r s1' [1]) [.work 0, .poll [0], .work 0, .poll [0]]) = .returned [7, 1] := by
   decide +kernel
 
+/-- **the pool is never left "busy".** However a `run()` ends - the early return for a pool without usable workers, a normal
+    return, `PoolError`, any other exception - the run-in-progress flag is clear afterwards, so the next `run()`,
+    `restart_workers()`, `close()` and `terminate()` are not refused. (`Gen.poolGuard` is regenerated from the source.) -/
+theorem C09_guard_clear (e : RunEnd) : guardAfter Gen.poolGuard e = false := by
+  cases e <;> decide
+
+/-- setting the flag in front of the early return (seeded change C09-F): a `run()` on a pool without usable workers leaves the
+    pool refusing everything, including `close()` -/
+theorem C09_counterexample_guard_before_return :
+    guardAfter { Gen.poolGuard with setInTry := false } .noWorkers = true := by decide
+
 end PwVerif.C09
